@@ -926,3 +926,91 @@ def bool_local_edges(fn, local, want="true"):
         elif 0 in info["targets"]:
             edges.add((bb, info["targets"][0]))
     return edges
+
+
+def _field_taint(F, g, adt_path, base, depth, pat):
+    """local -> set of field keys of `adt_path` (reached through `base`) that the local's value derives from"""
+    def keys(text):
+        ks = set()
+        for m in pat.finditer(text):
+            ks.add(m.group(2))
+            if m.group(1):
+                ks.add(m.group(1) + "." + m.group(2))
+        return ks
+    al = _aliases_of(g, base) if base else set()
+    taint = {}
+    changed = True
+    rounds = 0
+    while changed and rounds < 50:
+        rounds += 1
+        changed = False
+        for st in g.stmts:
+            ks = set()
+            for t in st.ops:
+                ks |= keys(t)
+                for l in locals_in(t):
+                    ks |= taint.get(l, set())
+            if ks and not ks <= taint.get(st.lhs_local, set()):
+                taint.setdefault(st.lhs_local, set()).update(ks)
+                changed = True
+        for c in g.calls:
+            ks = set()
+            for i, a in enumerate(c.args):
+                ks |= keys(a)
+                for l in locals_in(a):
+                    ks |= taint.get(l, set())
+                # an accessor that receives the whole object and returns (a reference into) one of its fields
+                a0 = re.sub(r"^(move|copy) ", "", a)
+                if depth > 0 and a0 in al and not c.indirect:
+                    callee = F.fns.get(c.callee_uid())
+                    if callee is not None and callee.uid != g.uid:
+                        ct = _field_taint(F, callee, adt_path, "_%d" % (i + 1), depth - 1, pat)
+                        ks |= ct.get("_0", set())
+            if ks and not ks <= taint.get(c.dest_local, set()):
+                taint.setdefault(c.dest_local, set()).update(ks)
+                changed = True
+    return taint
+
+
+def field_uses_of(F, fn, adt_path, base="_1", depth=3, _seen=None):
+    """Fields of `adt_path` whose storage (a place through `base` containing the field) flows into an argument of
+    some call in fn (or its closures), directly or through ref/copy chains and through accessor methods that return a
+    reference into the object; recursively through callees that receive the whole object. Unlike field_reads_of, a
+    field that is only *bound* (e.g. by a destructuring pattern) and never handed to anything does not count."""
+    if _seen is None:
+        _seen = set()
+    if (fn.uid, base) in _seen:
+        return set()
+    _seen.add((fn.uid, base))
+    out = set()
+    pat = re.compile(r"(?:as<(\w+)>\.)?\{" + re.escape(adt_path) + r"::(\w+)\}")
+
+    def keys(text):
+        ks = set()
+        for m in pat.finditer(text):
+            ks.add(m.group(2))
+            if m.group(1):
+                ks.add(m.group(1) + "." + m.group(2))
+        return ks
+
+    for g in [fn] + F.closures_of(fn):
+        taint = _field_taint(F, g, adt_path, base if g is fn else None, depth, pat)
+        for c in g.calls:
+            if c.bb in g.cleanup:
+                continue
+            for a in c.args:
+                out |= keys(a)
+                for l in locals_in(a):
+                    out |= taint.get(l, set())
+    if depth > 0:
+        al = _aliases_of(fn, base)
+        for c in fn.calls:
+            if c.indirect:
+                continue
+            for i, a in enumerate(c.args):
+                a0 = re.sub(r"^(move|copy) ", "", a)
+                if a0 in al:
+                    callee = F.fns.get(c.callee_uid())
+                    if callee is not None:
+                        out |= field_uses_of(F, callee, adt_path, "_%d" % (i + 1), depth - 1, _seen)
+    return out
